@@ -208,7 +208,11 @@ func panicInRepo(stack string) bool {
 		if strings.Contains(l, "/src/runtime/") || strings.Contains(l, "/src/testing/") {
 			continue
 		}
-		return strings.HasPrefix(l, "/repo/") && !strings.Contains(l, "zz_verif_")
+		root := os.Getenv("VERIF_REPO")
+		if root == "" {
+			root = "/repo"
+		}
+		return strings.HasPrefix(l, root+"/") && !strings.Contains(l, "zz_verif_")
 	}
 	return false
 }
